@@ -70,6 +70,8 @@ FARM_SCN = [dict(file="scenarios/farm_F2.ndjson", cfg="users=2,rdenoms=1,initlp=
             # and at a rate of ~2^128 with LP stakes ~2^128 (the K=1 trace is byte-identical in model units)
             dict(file="scenarios/farm_magnitude.ndjson", cfg=FARM_MAG_SCN + ",rk=16666666666666667"),
             dict(file="scenarios/farm_magnitude.ndjson", cfg=FARM_MAG_SCN + ",rk=169093200598693763"),
+            # here the scripted top-up (remaining 540 + 333 model units) crosses 2^64 with both terms below it
+            dict(file="scenarios/farm_magnitude.ndjson", cfg=FARM_MAG_SCN + ",rk=25000000000000007"),
             dict(file="scenarios/farm_magnitude.ndjson",
                  cfg=FARM_MAG_SCN + ",rk=5671372782015648997643561488564147477,lpk=3402823669209384634633")]
 # MC_FarmGov: the proposal life cycle as a configuration of its own (one reward denom, two proposals sharing the
@@ -101,7 +103,7 @@ def farm_magnitude_evidence(check, pid, tier, seed, work):
     trace validation (all clauses, unchanged specification)."""
     allf = os.path.join(work, "all.ndjson")
     strata = {"rate": {}, "rate_x_span": {}, "stake_total": {}, "budget": {}, "mixed_rate<2^64_product>=2^64": 0,
-              "mixed_remaining+topup_crosses_2^64": 0}
+              "mixed_remaining+topup_crosses_2^64": 0, "mixed_remaining+topup_crosses_2^63": 0}
     steps, samples, rk, lpk, unit, prev = 0, [], 1, 1, 10 ** 17, None
     if not os.path.exists(allf):
         return [], {}
@@ -124,8 +126,10 @@ def farm_magnitude_evidence(check, pid, tier, seed, work):
                     for d, rule in pool["rules"].items():
                         if r["ev"]["name"] == "AdjustPool" and r["ev"]["ok"] and r["ev"]["pool"] == p and d in r["ev"]["total"]:
                             a, b = rule["remaining"] * rk, r["ev"]["total"][d] * rk
-                            if a < 2 ** 64 and b < 2 ** 64 and a + b >= 2 ** 64:
-                                strata["mixed_remaining+topup_crosses_2^64"] += 1
+                            for w in (53, 63, 64, 128):
+                                if a < 2 ** w and b < 2 ** w and a + b >= 2 ** w:
+                                    k = "mixed_remaining+topup_crosses_2^%d" % w
+                                    strata[k] = strata.get(k, 0) + 1
                         if span <= 0 or pool["total"] <= 0:
                             continue
                         steps += 1
